@@ -1,0 +1,36 @@
+//go:build verif
+
+// Machine-checked contracts for this package (comment-only; compiled only with
+// the build tag `verif`). Read by /verif/engine (govc); see /verif/DESIGN.md.
+package lower
+
+// f32 -> f16 must be IEEE-754 round-to-nearest-even, bit for bit (WGSL: f16
+// values are binary16; a literal or constant converts with correct rounding).
+//
+//@ func float32ToHalf
+//@   mode bv
+//@   tags C06
+//@   ensures [rne] !isnan(f) ==> same(fromhalfbits(result), tohalf(f))
+//@   ensures [nan] isnan(f) ==> isnan(fromhalfbits(result))
+//@   pure
+//@   nopanic
+//
+//@ func halfToFloat32
+//@   mode bv
+//@   tags C06
+//@   ensures [exact] !isnan(fromhalfbits(h)) ==> same(result, halftof32(fromhalfbits(h)))
+//@   ensures [nan] isnan(fromhalfbits(h)) ==> isnan(result)
+//@   pure
+//@   nopanic
+//@   terminates
+//@   loop 1 invariant [frac] frac != 0 && frac < 0x800
+//@   loop 1 invariant [shift] (0 - exp) <= 10 && frac == (uint32(h) & 0x3ff) << (0 - exp)
+//@   loop 1 decreases 0x800 - frac
+//
+//@ func roundToF16
+//@   mode bv
+//@   tags C06
+//@   ensures [rne] !isnan(v) ==> same(result, halftof32(tohalf(v)))
+//@   ensures [nan] isnan(v) ==> isnan(result)
+//@   pure
+//@   nopanic
